@@ -8,6 +8,7 @@ From Coq Require Import ZArith List.
 From Pnc Require Import Proofs_Move.
 From Pnc Require Import Proofs_Layout.
 From Pnc Require Import Proofs_Redef.
+From Pnc Require Import Proofs_Exec2.
 Set Printing Width 100.
 Set Printing Depth 100000.
 
@@ -240,3 +241,67 @@ Theorem C06_triggers_complete :
           Header.l_recsize lay = Header.l_recsize ol).
 Proof. exact @triggers_complete. Qed.
 Print Assumptions C06_triggers_complete.
+
+Theorem C06_exec_redef_enddef_disk :
+  forall (w : Exec.world) (id : Z) (f : Exec.filest) (ea : Header.enddef_args)
+           (oh : Header.hdr) (ol : Header.layout) (ha va ra : Z) (lay : Header.layout),
+         Exec.f_indef f = true ->
+         Exec.f_old f = Some (oh, ol) ->
+         enddef_args_ok ea ->
+         Header.check_vlens (Exec.f_hdr f) = Gen_consts.NC_NOERR ->
+         Header.resolve_align (Exec.f_align f) ea
+           (Base.Zlen (Header.h_vars (Exec.f_hdr f)) - Exec.num_rec_vars oh) false = (
+         ha, va, ra) ->
+         Header.begins (Exec.f_hdr f) (Header.e_h_minfree ea) (Header.e_v_minfree ea) ha ra
+           (redef_old oh ol) (Header.l_begin_rec (Exec.f_lay f)) = Some lay ->
+         fill_guard (Base.Zlen (Header.h_vars oh)) (enddef_hdr f lay) = true ->
+         Exec.do_enddef w id f ea =
+         Some
+           (Exec.put_file (Exec.set_disk w (Exec.f_slot f) (enddef_redef_disk w f oh ol lay)) id
+              (Some (enddef_file f lay)), Gen_consts.NC_NOERR).
+Proof. exact @redef_enddef_disk. Qed.
+Print Assumptions C06_exec_redef_enddef_disk.
+
+Theorem C06_exec_redef_enddef_run_preserves :
+  forall (w : Exec.world) (id : Z) (f : Exec.filest) (ea : Header.enddef_args)
+           (oh : Header.hdr) (ol : Header.layout) (w' : Exec.world),
+         Exec.f_indef f = true ->
+         Exec.f_old f = Some (oh, ol) ->
+         Header.l_begin_rec (Exec.f_lay f) = Header.l_begin_rec ol ->
+         hdr_wf (Exec.f_hdr f) ->
+         (0 <= Header.env_h_align (Exec.f_align f))%Z ->
+         (0 <= Header.env_v_align (Exec.f_align f))%Z ->
+         (0 <= Header.env_r_align (Exec.f_align f))%Z ->
+         lay_inv (t3of oh) ol ->
+         hdr_extends oh (Exec.f_hdr f) ->
+         (1 <= Exec.w_nprocs w)%Z ->
+         (1 <= Exec.w_move_unit w)%Z ->
+         (0 <= enddef_numrecs f)%Z ->
+         (0 <= Exec.f_slot f < Base.Zlen (Exec.w_disks w))%Z ->
+         (0 <= id < Base.Zlen (Exec.w_files w))%Z ->
+         Exec.do_enddef w id f ea = Some (w', Gen_consts.NC_NOERR) ->
+         exists lay : Header.layout,
+           Base.znth (Exec.w_files w') id None = Some (enddef_file f lay) /\
+           lay_inv (t3of (Exec.f_hdr f)) lay /\
+           (Proofs_Header.wf_hdr (enddef_hdr f lay) = true ->
+            let d0 := Exec.get_disk w (Exec.f_slot f) in
+            let d3 := Exec.get_disk w' (Exec.f_slot f) in
+            hdr_on_disk w' (enddef_file f lay) /\
+            (forall i : Z,
+             (0 <= i < Base.Zlen (Header.h_vars oh))%Z ->
+             let ov := Base.znth (Header.h_vars oh) i dv in
+             let len := Header.var_len (Header.h_dims oh) ov in
+             let ob := Base.znth (Header.l_begins ol) i 0%Z in
+             let nb := Base.znth (Header.l_begins lay) i 0%Z in
+             (Header.is_recvar (Header.h_dims oh) ov = false ->
+              forall o : Z, (0 <= o < len)%Z -> Disk.dk_get d3 (nb + o) = Disk.dk_get d0 (ob + o)) /\
+             (Header.is_recvar (Header.h_dims oh) ov = true ->
+              (nb - Header.l_begin_rec lay)%Z = (ob - Header.l_begin_rec ol)%Z /\
+              (forall r o : Z,
+               (0 <= r < enddef_numrecs f)%Z ->
+               (0 <= o < len)%Z ->
+               (ob - Header.l_begin_rec ol + o < Header.l_recsize ol)%Z ->
+               Disk.dk_get d3 (nb + r * Header.l_recsize lay + o) =
+               Disk.dk_get d0 (ob + r * Header.l_recsize ol + o))))).
+Proof. exact @redef_enddef_run_preserves. Qed.
+Print Assumptions C06_exec_redef_enddef_run_preserves.
